@@ -90,6 +90,8 @@ func (Engine) Generate(cfg simkit.RunConfig) (any, bool) {
 		return genWorkload(c2, genOpts{maxTxns: 6, pessRate: 0.4, faults: false, topo: true, backend: backend, asyncRate: async, onePCRate: onepc}), true
 	case "crash", "crashfaults":
 		return genCrash(c2, backend), true
+	case "stalelock":
+		return genStaleLock(c2, backend), true
 	case "faults":
 		return genFaults(c2, backend), true
 	case "leftover":
